@@ -10,6 +10,10 @@ import z3
 sys.path.insert(0, os.path.dirname(os.path.dirname(os.path.abspath(__file__))))
 import frontend, checklib, replay, models
 from harness import *
+from shapes import *
+from ctxlib import *
+import c11
+from c12 import equal_term
 
 PID = 'C14'
 CVC5_RATE = [0.01]
@@ -62,6 +66,10 @@ def build(C, forest, labels, cons, counter, path, pre):
 
 
 def unit(u, res):
+    if u[0] == 'origin':
+        return unit_origin(u, res)
+    if u[0] == 'target':
+        return unit_target(u, res)
     forest, labels, itname, mutable, timeout_ms, seed = u
     C = ctx()
     cons = []
@@ -148,6 +156,143 @@ def unit(u, res):
         res.samples.append(dict(unit=name, identifier_nodes=len(pre), paths=res.paths))
 
 
+# ---------------------------------------------------------------- the stated consequence: unknown names are listed names
+# C08's inductive step (run by C08/C11/C13) shows that a node's result is either the unchanged error of its first failing child or the
+# result of Operator::eval[_mut] on its own operator.  So every *IdentifierNotFound error originates in one operator application:
+ALL_OPS = c11.NON_ASSIGN + c11.ASSIGN
+K_TARGET = 'unknown-variable-named-by-a-computed-assignment-target'
+
+
+def unit_origin(u, res):
+    """Operator::eval / eval_mut report VariableIdentifierNotFound(n) only for VariableIdentifierRead{n} or for `target op= value` with the
+    target string n, and FunctionIdentifierNotFound(n) only for FunctionIdentifier{n}; VariableIdentifierWrite{n} evaluates to the string n"""
+    _, opname, ident, shapes, mutable, ctxkind, timeout_ms, seed = u
+    C = ctx()
+    pr = checklib.Prover(res, timeout_ms, CVC5_RATE[0], random.Random(zlib.crc32(repr(u).encode()) ^ checklib.env_seed()))
+    cons, outs, h, pre, flag = c11.run_op(C, res, opname, ident, shapes, mutable, ctxkind)
+    name = 'Operator::%s(%s[%s], %s) in %s' % ('eval_mut' if mutable else 'eval', opname, ident, shapes, ctxkind)
+    args = None
+    for o in outs:
+        res.obligations += 0
+        res.nontrivial_paths += 1
+        if o.kind != 'return':
+            continue        # panics are C01's
+        r = o.value
+        claim = None
+        if r.variant == 1:
+            en = error_name(C.meta, r.fields[0])
+            if en == 'VariableIdentifierNotFound':
+                got = r.fields[0].fields[0]
+                alts = []
+                if opname == 'VariableIdentifierRead':
+                    alts.append(equal_term(got, sstr(ident)))
+                if opname in c11.ASSIGN and shapes and shapes[0].startswith('S'):
+                    a0 = make_value(C, shapes[0], 'a0', [])[0]      # same solver variables as run_op's first argument
+                    alts.append(equal_term(got, a0.fields[0]))
+                claim = z3.Or(*alts) if alts else z3.BoolVal(False)
+            elif en == 'FunctionIdentifierNotFound':
+                got = r.fields[0].fields[0]
+                claim = equal_term(got, sstr(ident)) if opname == 'FunctionIdentifier' else z3.BoolVal(False)
+        elif opname == 'VariableIdentifierWrite':
+            v = r.fields[0]
+            claim = equal_term(v.fields[0], sstr(ident)) if isinstance(v, Adt) and v.variant == C.VI('Value', 'String') else z3.BoolVal(False)
+        if claim is None:
+            res.obligations += 1
+            res.discharged += 1
+            continue
+        verdict, model = pr.prove(name, o.pc, claim)
+        if verdict == 'sat':
+            res.sat.append(dict(key='operator reports an unknown name that is not its own identifier', op=opname, ident=ident, shapes=shapes, mutable=mutable,
+                                witness='%s -> %s' % (name, render_result(C.meta, r, model))))
+    if len(res.samples) < 1:
+        res.samples.append(dict(unit=name, paths=len(outs)))
+
+
+TARGET_KINDS = ['Write', 'ConstStr', 'RootConstStr', 'ReadStrVar']
+
+
+def unit_target(u, res):
+    """node level: `target op= 1` evaluated from MIR in a HashMapContext; an unknown-variable error must name an identifier that the
+    (MIR-executed) iter_identifiers of the same tree lists"""
+    _, opname, tkind, timeout_ms, seed = u
+    C = ctx()
+    pr = checklib.Prover(res, timeout_ms, CVC5_RATE[0], random.Random(zlib.crc32(repr(u).encode()) ^ checklib.env_seed()))
+    cons = []
+    ch = z3.BitVec('tname', 32)
+    cons.append(z3.And(z3.UGE(ch, ord('a')), z3.ULE(ch, ord('z')), ch != ord('k')))     # a one-letter name other than the context's `k`
+    nm = SStr([Int(ch, False)])
+    if tkind == 'Write':
+        child0 = C.node(C.operator('VariableIdentifierWrite', nm))
+    elif tkind == 'ConstStr':
+        child0 = C.node(C.operator('Const', C.v_str(nm)))
+    elif tkind == 'RootConstStr':
+        child0 = C.node(C.operator('RootNode'), [C.node(C.operator('Const', C.v_str(nm)))])
+    else:
+        child0 = C.node(C.operator('VariableIdentifierRead', sstr('k')))
+    top = C.node(C.operator('RootNode'), [C.node(C.operator(opname), [child0, C.node(C.operator('Const', C.v_int(1)))])])
+    # listed names, by executing iter_identifiers from MIR
+    it_body = C.p.find_inherent('Node', 'iter_identifiers')
+    drain = models.synth_static(C.new_exec(), '__drain')
+    holder = {}
+
+    def a1(st):
+        holder['n'] = ref_to(st, top)
+        return [holder['n']]
+    ex, outs = C.run(it_body, a1, pc=cons)
+    res.bodies |= ex.bodies_used
+    listed = None
+    if len(outs) == 1 and outs[0].kind == 'return':
+        from engine import Frame
+        st2 = outs[0].state
+        fr = Frame(drain)
+        fr.locals[drain.args[0]] = st2.new_cell(Ref(st2.new_cell(outs[0].value), []))
+        st2.frames.append(fr)
+        ex2 = C.new_exec()
+        outs2 = ex2.run(st2)
+        if len(outs2) == 1 and outs2[0].kind == 'return':
+            listed = []
+            for it in outs2[0].value.items:
+                s = ex2.deref_all(Ref(find_cell(outs2[0].state, holder['n'].cell.id), it.path)) if isinstance(it, Ref) else None
+                listed.append(s)
+    if listed is None or not all(isinstance(s, SStr) for s in listed):
+        res.inconclusive.append('iter_identifiers on the target tree did not produce one list of strings')
+        return
+    body = C.method('Node', 'eval_with_context_mut')
+
+    def a2(st):
+        cv = build_context(C, st, variables=[('k', C.v_str(nm))], functions=[], disabled=False)
+        return [ref_to(st, top), ref_to(st, cv, mut=True)]
+    t0 = time.time()
+    ex3, outs3 = C.run(body, a2, pc=cons)
+    res.exec_s += time.time() - t0
+    res.bodies |= ex3.bodies_used
+    res.models |= ex3.models_used
+    res.feas_queries += ex3.nq
+    res.paths += len(outs3)
+    name = '`<%s target> %s 1`' % (tkind, opname)
+    for o in outs3:
+        res.nontrivial_paths += 1
+        if o.kind != 'return' or o.value.variant != 1 or error_name(C.meta, o.value.fields[0]) not in ('VariableIdentifierNotFound', 'FunctionIdentifierNotFound'):
+            res.obligations += 1
+            res.discharged += 1
+            continue
+        got = o.value.fields[0].fields[0]
+        claim = z3.Or(*[equal_term(got, s) for s in listed]) if listed else z3.BoolVal(False)
+        verdict, model = pr.prove(name, o.pc, claim)
+        if verdict == 'sat':
+            t = chr(model.eval(ch, model_completion=True).as_long())
+            sym = SYM[opname]
+            src = {'Write': '%s %s 1' % (t, sym), 'ConstStr': '"%s" %s 1' % (t, sym), 'RootConstStr': '("%s") %s 1' % (t, sym), 'ReadStrVar': '(k) %s 1' % sym}[tkind]
+            res.sat.append(dict(key=(K_TARGET if tkind != 'Write' else 'unknown variable of an identifier target is not listed'), target_kind=tkind, op=opname,
+                                source=src, ctx_vars=[['k', ['String', t]]], listed=[render_str(s, model) for s in listed],
+                                witness='%s with k = "%s": %s, identifiers listed: %s' % (src, t, render_result(C.meta, o.value, model), [render_str(s, model) for s in listed])))
+    if len(res.samples) < 1:
+        res.samples.append(dict(unit=name, listed=len(listed), paths=len(outs3)))
+
+
+SYM = {'Assign': '=', 'AddAssign': '+=', 'SubAssign': '-=', 'MulAssign': '*=', 'DivAssign': '/=', 'ModAssign': '%=', 'ExpAssign': '^=', 'AndAssign': '&&=', 'OrAssign': '||='}
+
+
 def strip(p):
     """normalise a reference path: drop downcasts; keep field/index steps"""
     return tuple(x for x in p if x[0] in ('field', 'index'))
@@ -161,8 +306,36 @@ def find_cell(st, cid):
 
 
 # ---------------------------------------------------------------- replay through source programs
+def replay_names(ce):
+    """native: evaluate programs that fail with an unknown identifier; the reported name must be among the names iter_identifiers lists"""
+    if 'source' in ce:
+        progs = [(ce['source'], [(n, tuple(v)) for n, v in ce.get('ctx_vars', [])])]
+    else:
+        base = [('a', ('Int', 1)), ('s', ('String', 'q'))]
+        progs = [(p, base) for p in ['missing', 'a + missing', 'missing + a', 'nofn(1)', 'a; nofn a', 'x += 1', 'y -= a', 'z &&= true', 'w = missing', '(missing, a)', 'f(missing)',
+                                      'a = nofn(2)', 'len(missing)', 'a *= missing', 'b ||= false', 'c ^= 2', 'd /= 2', 'e %= 2', 't = a; u += t', 'typeof(nofn2 a)', '-missing', '!nob']]
+    details = []
+    bad = False
+    for prof in ('dev', 'release'):
+        text = ''
+        for i, (p, vs) in enumerate(progs):
+            text += replay.case_text('b%d' % i, 'build', p) + replay.case_text('e%d' % i, 'eval_with_context_mut', p, vars=vs)
+        out = replay.run_cases(text, prof)
+        for i, (p, vs) in enumerate(progs):
+            r = out['e%d' % i].get('result')
+            listed = out['b%d' % i].get('iter_identifiers')
+            if r and r[0] == 'Err' and r[1] in ('VariableIdentifierNotFound', 'FunctionIdentifierNotFound') and listed is not None:
+                nm = r[2][1] if r[2] else None
+                if nm not in listed:
+                    bad = True
+                    details.append('%s: `%s` reports %s(%r); iter_identifiers lists %s' % (prof, p, r[1], nm, listed))
+    return ('reproduced' if bad else 'not_reproduced'), details[:6] or ['every reported unknown name is listed natively']
+
+
 def replay_ce(ce):
     """native comparison of all ten iterators with a reference occurrence list on probe programs covering every class order"""
+    if 'source' in ce or ce.get('key', '').startswith('operator reports'):
+        return replay_names(ce)
     probes = {
         'a; b = 1': [('a', 'R'), ('b', 'W')],
         'x = y; z = x': [('x', 'W'), ('y', 'R'), ('z', 'W'), ('x', 'R')],
@@ -214,16 +387,40 @@ def main():
                 for itname in ITERS:
                     for mutable in (False, True):
                         units.append((f, list(labels), itname, mutable, timeout_ms, seed))
+    n_iter_units = len(units)
+    eshapes = ['I', 'F', 'B', 'S1', 'T1', 'E']
+    arglists = [[]] + [[a] for a in eshapes] + [[a, b] for a in eshapes for b in eshapes]
+    a3 = [[a, b, c_] for a in eshapes for b in eshapes for c_ in eshapes]
+    random.Random(seed).shuffle(a3)
+    arglists += a3[:(6 if tier == 'quick' else 60)]
+    for op in ALL_OPS:
+        idents = ['x', 'zz'] if op in ('VariableIdentifierWrite', 'VariableIdentifierRead') else ['f', 'min', 'zz'] if op == 'FunctionIdentifier' else ['-']
+        for ident in idents:
+            for shapes in arglists:
+                for mutable in (False, True):
+                    for ck in (('hashmap', 'empty', 'emptyb') if (len(shapes) <= 1 or op in c11.ASSIGN) else ('hashmap',)):
+                        if mutable and ck != 'hashmap':
+                            continue
+                        units.append(('origin', op, ident, shapes, mutable, ck, timeout_ms, seed))
+    for op in c11.ASSIGN:
+        for tk in TARGET_KINDS:
+            units.append(('target', op, tk, timeout_ms, seed))
     random.Random(seed).shuffle(units)
     results = checklib.run_units(checklib.safe_worker(unit), units)
     checklib.finish(PID, results, t0=t0, replay_fn=replay_ce,
                     rule='every ordered forest of <= %d nodes below the root x every labelling of its nodes as {operator, identifier} (sampled for the largest size) x the 5 immutable and 5 '
                          'mutable identifier iterators; for identifier nodes the class (write/read/function) and the name are solver variables; obligation per path of the drained iterator: '
-                         'the yielded references are exactly the identifier strings of the nodes whose class the iterator selects, in pre-order, with the right names' % maxn,
+                         'the yielded references are exactly the identifier strings of the nodes whose class the iterator selects, in pre-order, with the right names; '
+                         'the stated consequence: (origin) Operator::eval / eval_mut for all %d operator variants x argument vectors of length 0..3 x 3 context kinds report '
+                         'VariableIdentifierNotFound(n) / FunctionIdentifierNotFound(n) only for their own identifier n or, for the 9 assignment operators, for the target string n, and '
+                         'VariableIdentifierWrite{n} evaluates to the string n; (target) `target op= 1` for 9 assignment operators x 4 target forms (identifier with a symbolic name, string '
+                         'literal, parenthesised string literal, variable holding a string) evaluated from MIR: the reported unknown name must be in the MIR-executed iter_identifiers list' % (maxn, len(ALL_OPS)),
                     explanation='bounded symbolic verification of NodeIter::next / OperatorIterMut::next and the filter_map closures from MIR; shapes are enumerated, classes and names are '
                                 'quantified by the solver (this is the weakest use of the technique among the claimed properties: the shape space is enumerated)',
                     assumptions=['trees need not be parser-reachable (the iterators are public API on any Node)',
-                                 'evaluation looks up exactly the stored identifier (C09 dispatch and C03/C11 VariableIdentifierRead units), so renaming through the mutable iterators and in the context commutes with evaluation: stated consequence, not separately decided',
+                                 'a node result is the unchanged error of its first failing child or the result of Operator::eval[_mut] on its own operator: the C08 inductive step (decided by C08/C11/C13), used here to lift the operator-level origin claim to trees of any depth',
+                                 'user functions do not themselves return *IdentifierNotFound errors naming other identifiers',
+                                 'renaming through the mutable iterators and in the context commutes with evaluation because lookups use exactly the stored identifier (origin units; C09 dispatch): not decided as a separate relational query',
                                  'Iterator::filter_map is modelled (lazy adaptor); slice iterators are native models'],
                     bounds=dict(max_nodes=maxn, iterators=10, solver_timeout_ms=timeout_ms))
 
